@@ -182,12 +182,13 @@ def handleRun (args : List String) : Verdict :=
     "output files are byte-identical to the single-thread run") -/
 def handleEnrun (args : List String) : Verdict :=
   match args with
-  | [_sid, k, nf, block, rc1, rck, nfiles, ndiff, first] =>
+  | [sid, k, nf, block, rc1, rck, nfiles, ndiff, first] =>
+    let fam := if sid.endsWith ":n" then "direct" else "mapped"
     let same := ndiff == "0" && rc1 == rck
     let name := match Votca.unhex first with | some cs => String.ofList cs | none => first
     { agree := same, propOk := same,
       msg := if same then "" else s!"CSGSTAT-NT csg_stat --nt {k} differs from --nt 1: exit codes {rc1}/{rck}, {ndiff} of {nfiles} files differ, first: {name}",
-      tag := s!"enrun:nt{k}:frames{nf}:{if block == "0" then "noblock" else "block"}:{if rc1 == "0" then "ok" else "error-exit"}" }
+      tag := s!"enrun:{fam}:nt{k}:frames{nf}:{if block == "0" then "noblock" else "block"}:{if rc1 == "0" then "ok" else "error-exit"}" }
   | _ => bad "enrun arity"
 
 def handle (args : List String) : Verdict :=
